@@ -62,3 +62,16 @@ Lemma enum_sweep :
   forallb (fun kv => negb (N.eqb (lact_num (listener_accept_decision (snd kv))) 3) || stop_code (snd kv)) C14_ERR_ENUM = true /\
   map snd (filter (fun kv => stop_code (snd kv)) C14_ERR_ENUM) = [C14_ECLOSED; C14_ECONNABORTED; C14_ECANCELED; C14_ESTOPPED].
 Proof. split; vm_compute; reflexivity. Qed.
+
+(* ---- the transports' literal failure codes (tools/gen_consts_d/c14_tranfail.py) ----
+   every code a transport gives to the core's connect / accept aio OUTSIDE the context of the endpoint's own
+   close makes the dialer redial (class DcRetry) and the listener re-arm (not a stop code) *)
+Definition tran_site_ok (e : string * string * N * bool) : bool :=
+  let '(_, _, code, own_close) := e in
+  own_close || (N.eqb (dclass_num (dialer_connect_class code)) 2 && negb (stop_code code)).
+
+Lemma tran_fail_sites_ok : forallb tran_site_ok C14_TRAN_FAIL_SITES = true.
+Proof. vm_compute. reflexivity. Qed.
+
+Lemma tran_fail_sites_counted : List.length C14_TRAN_FAIL_SITES = C14_TRAN_FAIL_SITE_COUNT /\ (40 <= C14_TRAN_FAIL_SITE_COUNT)%nat.
+Proof. split; [reflexivity|]. unfold C14_TRAN_FAIL_SITE_COUNT. repeat constructor. Qed.
